@@ -70,3 +70,14 @@ package kafka
 //@     pure
 //@   callee newMetaInformation(m)
 //@     pure
+
+// Start: the topic -> index table maps every configured topic to a position
+// of that topic in config.Topics (what Commit relies on when it indexes
+// config.Topics with the decoded index).  Go maps are not modelled, so the
+// clause is an oracle on the map update itself.
+
+//@ func (*Plugin).Start
+//@   option allow-exit yes
+//@   requires typeis(config, "*github.com/ozontech/file.d/plugin/input/kafka.Config")
+//@   callee mapupdate:idByTopic(k, v)
+//@     requires 0 <= v && v < len(p.config.Topics) && p.config.Topics[v] == k
